@@ -1,7 +1,8 @@
 (* C05 — CSR multiplexer writes are atomic and reach exactly the addressed register.
-   Statements only; proofs in Proofs/MuxBasic.v, Proofs/MuxWrite.v. *)
+   Statements only; proofs in Proofs/MuxBasic.v, Proofs/MuxWrite.v, Proofs/MuxPrepare.v, Proofs/MuxAssemble.v. *)
 From Coq Require Import ZArith List Bool Lia.
-From Soc Require Import Lib.Bits Model.Mux Proofs.MuxBasic.
+From Soc Require Import Lib.Bits Model.Mux Model.MuxSpec Proofs.MuxBasic.
+From Soc Require Import Proofs.MuxWrite Proofs.MuxPrepare Proofs.MuxAssemble.
 Import ListNotations.
 Open Scope Z_scope.
 
@@ -18,3 +19,216 @@ Theorem C05_no_strobe_at_reset : forall c i k r, nth_error (c_regs c) k = Some r
   nth_error (o_wstb (out c (init c) i)) k = Some false.
 Proof. exact w_strobe_init. Qed.
 Print Assumptions C05_no_strobe_at_reset.
+
+(* ------------------------------------------------------------------ write data *)
+
+(* Atomic write.  Register number k is writable; at cycle t its last address is written (so its w_stb is
+   up in cycle t+1, by C05_w_strobe_exact).  For every chunk j that carries data bits, `tj j` is the cycle
+   of the latest write to address start+j and `dj j` the data written then; no other writable register
+   is written after the earliest of these.  Then in cycle t+1 the register's w_data is the concatenation of
+   the dj (see C05_assemble_is_concatenation).  Everything else is unconstrained: reads, idle cycles,
+   earlier aborted attempts, writes to read-only registers or unmapped addresses, writes to the register's
+   own padding chunks, any order of the chunk writes. *)
+Theorem C05_write_atomic : forall c is t k r it (tj : Z -> nat) (dj : Z -> Z), wf_cfg c ->
+  nth_error (c_regs c) k = Some r -> r_wr r = true ->
+  nth_error is t = Some it -> i_wstb it = true -> i_addr it = r_stop r - 1 ->
+  (forall j, 0 <= j < reg_len r -> j * c_dw c < r_width r ->
+     (tj j <= t)%nat /\
+     (exists i, nth_error is (tj j) = Some i /\ i_wstb i = true /\ i_addr i = r_start r + j /\
+                dj j = trunc (c_dw c) (i_wdata i)) /\
+     (forall u i, (tj j < u <= t)%nat -> nth_error is u = Some i ->
+                  ~ (i_wstb i = true /\ i_addr i = r_start r + j))) ->
+  (forall j u, 0 <= j < reg_len r -> j * c_dw c < r_width r -> (tj j < u <= t)%nat ->
+               ~ other_write c is k u) ->
+  elem_wdata c (st_at c is (S t)) r = assemble (c_dw c) (r_width r) dj (Z.to_nat (reg_len r)).
+Proof. exact write_atomic. Qed.
+Print Assumptions C05_write_atomic.
+
+(* elem_wdata is what the port shows *)
+Theorem C05_w_data_port : forall c s i k r, nth_error (c_regs c) k = Some r -> r_wr r = true ->
+  nth_error (o_wdata (out c s i)) k = Some (elem_wdata c s r).
+Proof. exact o_wdata_nth. Qed.
+Print Assumptions C05_w_data_port.
+
+(* `assemble` is the concatenation: bit b of the result is bit (b mod dw) of chunk b / dw, clipped to the
+   register width (n chunks covering the width, as the memory map guarantees for its registers) *)
+Theorem C05_assemble_is_concatenation : forall dw width data n b, 0 < dw -> 0 <= width -> 0 <= b ->
+  width <= Z.of_nat n * dw ->
+  Z.testbit (assemble dw width data n) b =
+  if b <? width then Z.testbit (data (b / dw)) (b mod dw) else false.
+Proof. exact assemble_full_testbit. Qed.
+Print Assumptions C05_assemble_is_concatenation.
+
+(* ------------------------------------------------------------------ stray writes *)
+
+(* writes to read-only registers or unmapped addresses (and cycles without a write strobe) change no
+   shadow chunk that a writable register uses: every writable register's w_data stays what it was.
+   Holds from ANY state s, reachable or not. *)
+Theorem C05_stray_write_inert : forall c s i, wf_cfg c ->
+  (i_wstb i = false \/ forall r, In r (c_regs c) -> r_wr r = true -> ~ (r_start r <= i_addr i < r_stop r)) ->
+  forall r, In r (c_regs c) -> r_wr r = true -> elem_wdata c (next c s i) r = elem_wdata c s r.
+Proof. exact stray_write_inert. Qed.
+Print Assumptions C05_stray_write_inert.
+
+(* stronger: a write strobe outside every writable register leaves exactly the state that the same cycle
+   without the strobe leaves (chunks, strobe registers, read path) — it can never be told from an idle cycle *)
+Theorem C05_stray_write_is_idle : forall c s i, wf_cfg c ->
+  (forall r, In r (c_regs c) -> r_wr r = true -> ~ (r_start r <= i_addr i < r_stop r)) ->
+  next c s i = next c s (no_write i).
+Proof. exact stray_write_is_idle. Qed.
+Print Assumptions C05_stray_write_is_idle.
+
+(* ------------------------------------------------------------------ the sharing limit *)
+
+(* two admissible shadow-size pairs for the same registers: identical strobes on every trace *)
+Theorem C05_sharing_limit_unobservable : forall c1 c2, wf_cfg c1 -> wf_cfg c2 ->
+  c_dw c1 = c_dw c2 -> c_regs c1 = c_regs c2 ->
+  (forall is i, o_rstb (out c1 (state_after c1 (init c1) is) i) = o_rstb (out c2 (state_after c2 (init c2) is) i) /\
+                o_wstb (out c1 (state_after c1 (init c1) is) i) = o_wstb (out c2 (state_after c2 (init c2) is) i)).
+Proof. intros c1 c2 _ _ _ Hregs. exact (sharing_strobes c1 c2 Hregs). Qed.
+Print Assumptions C05_sharing_limit_unobservable.
+
+(* ... and identical write data under the premises of C05_write_atomic (whose right-hand side does not
+   mention the shadow sizes).  Outside these premises the sizes DO show: see
+   C05_sharing_visible_outside_protocol below. *)
+Theorem C05_sharing_limit_unobservable_wdata : forall c1 c2 is t k r it (tj : Z -> nat) (dj : Z -> Z),
+  wf_cfg c1 -> wf_cfg c2 -> c_dw c1 = c_dw c2 -> c_regs c1 = c_regs c2 ->
+  nth_error (c_regs c1) k = Some r -> r_wr r = true ->
+  nth_error is t = Some it -> i_wstb it = true -> i_addr it = r_stop r - 1 ->
+  (forall j, 0 <= j < reg_len r -> j * c_dw c1 < r_width r ->
+     (tj j <= t)%nat /\
+     (exists i, nth_error is (tj j) = Some i /\ i_wstb i = true /\ i_addr i = r_start r + j /\
+                dj j = trunc (c_dw c1) (i_wdata i)) /\
+     (forall u i, (tj j < u <= t)%nat -> nth_error is u = Some i ->
+                  ~ (i_wstb i = true /\ i_addr i = r_start r + j))) ->
+  (forall j u, 0 <= j < reg_len r -> j * c_dw c1 < r_width r -> (tj j < u <= t)%nat ->
+               ~ other_write c1 is k u) ->
+  elem_wdata c1 (st_at c1 is (S t)) r = elem_wdata c2 (st_at c2 is (S t)) r.
+Proof. exact sharing_wdata. Qed.
+Print Assumptions C05_sharing_limit_unobservable_wdata.
+
+(* ------------------------------------------------------------------ the sizes prepare() computes *)
+
+(* Multiplexer(memory_map, shadow_overlaps=ov) always gets admissible sizes: prepare() returns within its
+   fuel, for every layout and every sharing limit. *)
+Theorem C05_mk_cfg_total : forall dw regs ov, 0 < dw -> wf_layout regs ->
+  (match ov with Some v => 0 <= v | None => True end) ->
+  exists c, mk_cfg dw regs ov = Some c /\ wf_cfg c /\ c_regs c = regs /\ c_dw c = dw.
+Proof. exact mk_cfg_total. Qed.
+Print Assumptions C05_mk_cfg_total.
+
+(* the termination argument itself, for ANY register list (no layout premise) and any limit *)
+Theorem C05_shadow_size_total : forall ov regs, exists S, shadow_size ov regs = Some S /\ size_ok S regs.
+Proof. exact shadow_size_total. Qed.
+Print Assumptions C05_shadow_size_total.
+
+(* ------------------------------------------------------------------ non-vacuity *)
+
+(* 8-bit bus; [2,3) 8 bits; [3,5) 12 bits, unaligned, shares chunks with both neighbours; [8,12) 8 bits padded to
+   four addresses (alignment 2): its last address 11 is a padding chunk *)
+Definition ex_r0 := {| r_start := 2; r_stop := 3; r_width := 8; r_rd := true; r_wr := true |}.
+Definition ex_r1 := {| r_start := 3; r_stop := 5; r_width := 12; r_rd := true; r_wr := true |}.
+Definition ex_r2 := {| r_start := 8; r_stop := 12; r_width := 8; r_rd := false; r_wr := true |}.
+Definition ex_regs := [ex_r0; ex_r1; ex_r2].
+Definition ex_c := {| c_dw := 8; c_regs := ex_regs; c_Sr := 2; c_Sw := 4 |}.      (* shadow_overlaps=None *)
+Definition ex_c0 := {| c_dw := 8; c_regs := ex_regs; c_Sr := 4; c_Sw := 16 |}.    (* shadow_overlaps=0 *)
+
+Example C05_mk_cfg_nonvacuous :
+  mk_cfg 8 ex_regs None = Some ex_c /\ mk_cfg 8 ex_regs (Some 0) = Some ex_c0 /\
+  (* write chunks: addresses 2, 4 and 10 share chunk 2, addresses 3 and 11 share chunk 3 *)
+  map (fun r => map (decode 4 r) (addrs r)) ex_regs = [[2]; [3; 2]; [0; 1; 2; 3]] /\
+  (* with limit 0 the shadow grows to 16; the unaligned pair 2/4 still shares (best effort) *)
+  map (fun r => map (decode 16 r) (addrs r)) ex_regs = [[2]; [3; 2]; [8; 9; 10; 11]].
+Proof. vm_compute. auto. Qed.
+
+Lemma ex_layout : wf_layout ex_regs.
+Proof. unfold wf_layout, ex_regs. cbn. lia. Qed.
+
+Lemma ex_wf : wf_cfg ex_c.
+Proof.
+  destruct (C05_mk_cfg_total 8 ex_regs None) as (c & E & Hwf & _); [lia|exact ex_layout|exact I|].
+  destruct C05_mk_cfg_nonvacuous as (E' & _). rewrite E' in E. injection E as <-. exact Hwf.
+Qed.
+
+Lemma ex_wf0 : wf_cfg ex_c0.
+Proof.
+  destruct (C05_mk_cfg_total 8 ex_regs (Some 0)) as (c & E & Hwf & _); [lia|exact ex_layout|cbn; lia|].
+  destruct C05_mk_cfg_nonvacuous as (_ & E' & _). rewrite E' in E. injection E as <-. exact Hwf.
+Qed.
+
+Definition ex_w (a d : Z) : inp := {| i_addr := a; i_rstb := false; i_wstb := true; i_wdata := d; i_rvals := [] |}.
+Definition ex_rd (a : Z) : inp := {| i_addr := a; i_rstb := true; i_wstb := false; i_wdata := 238; i_rvals := [] |}.
+
+(* an aborted attempt at address 4, a write to the neighbour [2,3) (which shares chunk 2 with address 4), then
+   the transaction proper: 3 <- 0x134 (cut to 0x34), a read in between, 4 <- 0x5B (4 bits used): 0xB34 *)
+Definition ex_is := [ex_w 4 255; ex_w 2 170; ex_w 3 308; ex_rd 9; ex_w 4 91].
+Definition ex_tj (j : Z) : nat := if j =? 0 then 2%nat else 4%nat.
+Definition ex_dj (j : Z) : Z := if j =? 0 then 52 else 91.
+
+Ltac ex_nat_split u n :=
+  match n with
+  | O => idtac
+  | S ?n' => destruct u as [|u]; [|ex_nat_split u n']
+  end.
+Ltac ex_nat_cases u H := ex_nat_split u 6%nat; try (exfalso; lia).
+
+Example C05_write_atomic_nonvacuous :
+  (* the premises of C05_write_atomic, for register 1 and t = 4 ... *)
+  wf_cfg ex_c /\ nth_error (c_regs ex_c) 1 = Some ex_r1 /\ r_wr ex_r1 = true /\
+  nth_error ex_is 4 = Some (ex_w 4 91) /\ i_wstb (ex_w 4 91) = true /\ i_addr (ex_w 4 91) = r_stop ex_r1 - 1 /\
+  (forall j, 0 <= j < reg_len ex_r1 -> j * c_dw ex_c < r_width ex_r1 ->
+     (ex_tj j <= 4)%nat /\
+     (exists i, nth_error ex_is (ex_tj j) = Some i /\ i_wstb i = true /\ i_addr i = r_start ex_r1 + j /\
+                ex_dj j = trunc (c_dw ex_c) (i_wdata i)) /\
+     (forall u i, (ex_tj j < u <= 4)%nat -> nth_error ex_is u = Some i ->
+                  ~ (i_wstb i = true /\ i_addr i = r_start ex_r1 + j))) /\
+  (forall j u, 0 <= j < reg_len ex_r1 -> j * c_dw ex_c < r_width ex_r1 -> (ex_tj j < u <= 4)%nat ->
+               ~ other_write ex_c ex_is 1 u) /\
+  (* ... and both sides of its conclusion *)
+  elem_wdata ex_c (st_at ex_c ex_is 5) ex_r1 = 2868 /\
+  assemble (c_dw ex_c) (r_width ex_r1) ex_dj (Z.to_nat (reg_len ex_r1)) = 2868 /\
+  (* the strobe of register 1 alone is up in that cycle *)
+  o_wstb (out ex_c (st_at ex_c ex_is 5) (ex_rd 0)) = [false; true; false].
+Proof.
+  split; [exact ex_wf|]. repeat (split; [reflexivity|]).
+  split; [|split; [|vm_compute; auto]].
+  - intros j Hj _. assert (Ej : j = 0 \/ j = 1) by (unfold reg_len in Hj; cbn in Hj; lia).
+    destruct Ej as [-> | ->]; (split; [cbn; lia|split]).
+    + exists (ex_w 3 308). vm_compute. auto.
+    + intros u i Hu Hi. cbn in Hu. ex_nat_cases u Hu; cbn in Hi; inversion Hi; subst i; cbn; intros [? ?]; discriminate.
+    + exists (ex_w 4 91). vm_compute. auto.
+    + intros u i Hu. cbn in Hu. lia.
+  - intros j u Hj _ Hu (i & k' & r' & Hi & Hk' & Hne & Hwr & Hws & Ha).
+    assert (Ej : j = 0 \/ j = 1) by (unfold reg_len in Hj; cbn in Hj; lia).
+    destruct Ej as [-> | ->]; cbn in Hu; [|lia].
+    ex_nat_cases u Hu; cbn in Hi; inversion Hi; subst i; [discriminate Hws|].
+    destruct k' as [|[|[|k']]]; cbn in Hk'; try congruence; inversion Hk'; subst; cbn in Ha. all: try lia. all: try congruence. destruct k'; discriminate.
+Qed.
+
+(* a padded register: [8,12) holds 8 bits, so only the write to address 8 carries data; the writes to the
+   padding addresses 9..11 (the last one completes the transaction) contribute nothing *)
+Definition ex_is2 := [ex_w 8 119; ex_w 9 1; ex_w 10 2; ex_w 11 3].
+Example C05_padded_write_nonvacuous :
+  elem_wdata ex_c (st_at ex_c ex_is2 4) ex_r2 = 119 /\
+  assemble 8 8 (fun _ => 119) (Z.to_nat (reg_len ex_r2)) = 119 /\
+  o_wstb (out ex_c (st_at ex_c ex_is2 4) (ex_rd 0)) = [false; false; true] /\
+  (* sizes do not matter here *)
+  elem_wdata ex_c0 (st_at ex_c0 ex_is2 4) ex_r2 = 119.
+Proof. vm_compute. auto. Qed.
+
+(* The premise "no other writable register is written during the transaction" is needed, and without it the
+   sharing limit IS observable: interleave a write to [8,12)'s padding address 11 into a transaction on [3,5).
+   With shadow size 4 addresses 3 and 11 share chunk 3 and register 1 receives 0x322; with size 16 they do
+   not and it receives 0x311.  (The multiplexer's documentation demands exclusive ownership for the duration
+   of a register transaction, so this is outside its contract — but it bounds what can be proved.) *)
+Definition ex_is3 := [ex_w 3 17; ex_w 11 34; ex_w 4 51].
+Example C05_sharing_visible_outside_protocol :
+  wf_cfg ex_c /\ wf_cfg ex_c0 /\ c_dw ex_c = c_dw ex_c0 /\ c_regs ex_c = c_regs ex_c0 /\
+  other_write ex_c ex_is3 1 1 /\
+  elem_wdata ex_c (st_at ex_c ex_is3 3) ex_r1 = 802 /\
+  elem_wdata ex_c0 (st_at ex_c0 ex_is3 3) ex_r1 = 785.
+Proof.
+  split; [exact ex_wf|]. split; [exact ex_wf0|]. repeat (split; [reflexivity|]).
+  split; [|vm_compute; auto].
+  exists (ex_w 11 34), 2%nat, ex_r2. cbn. repeat split; auto; lia.
+Qed.
